@@ -14,7 +14,7 @@ const ChildEnv = "CEDARVERIF_C17_CHILD"
 
 // Job describes what one child process runs.
 type Job struct {
-	Phases   []string `json:"phases"` // "pairs" "stress" "hist" "handshake" "handshake_seq" "duplex"
+	Phases   []string `json:"phases"` // "pairs" "stress" "hist" "handshake" "handshake_seq" "manager" "manager_seq" "duplex"
 	Seed     int64    `json:"seed"`
 	Procs    int      `json:"procs"`
 	Yield    bool     `json:"yield"`
@@ -31,13 +31,13 @@ type Job struct {
 
 // ChildResult is what the child writes to Job.Out.
 type ChildResult struct {
-	RaceEnabled bool               `json:"race_enabled"`
-	Procs       int                `json:"procs"`
-	CacheOps    int64              `json:"cache_ops"`
-	PairOps     map[string]int64   `json:"pair_ops"`
-	Episodes    []Episode          `json:"episodes"`
+	RaceEnabled bool                `json:"race_enabled"`
+	Procs       int                 `json:"procs"`
+	CacheOps    int64               `json:"cache_ops"`
+	PairOps     map[string]int64    `json:"pair_ops"`
+	Episodes    []Episode           `json:"episodes"`
 	Net         map[string]NetStats `json:"net"`
-	WallMs      int64              `json:"wall_ms"`
+	WallMs      int64               `json:"wall_ms"`
 }
 
 // ChildMain runs the job named by the environment and exits.
@@ -81,6 +81,10 @@ func ChildMain(jobPath string) {
 			res.Net[ph] = Handshakes(job.Seed, job.Clients, job.Iters, false, job.Yield, true)
 		case "handshake_seq":
 			res.Net[ph] = Handshakes(job.Seed, 2, 3, true, false, false)
+		case "manager_seq":
+			res.Net[ph] = Managers(job.Seed, 2, 3, true, false)
+		case "manager":
+			res.Net[ph] = Managers(job.Seed, job.Clients, job.Iters, false, job.Yield)
 		case "duplex":
 			res.Net[ph] = Duplex(job.Seed, job.Conns, job.Yield)
 		}
